@@ -978,6 +978,20 @@ def _flatten(f, es, tag):
     return [([], f, [])]
 
 
+def _mentions_ix(e, of):
+    """does e talk about the first index of something in the sequence `of`"""
+    stack, seen = [e], set()
+    while stack:
+        t = stack.pop()
+        if t.get_id() in seen:
+            continue
+        seen.add(t.get_id())
+        if z3.is_app(t) and t.decl().name().startswith("first_index_") and t.arg(0).eq(of):
+            return True
+        stack.extend(t.children())
+    return False
+
+
 def _ground_instances(hyps, old, new, x, sks):
     """ground instances of the universally quantified hypotheses (one bound variable) at the terms a proof about the
     first index of the skolem element y0 talks about: y0, the element operated on, the head; the first indices of y0
@@ -1048,13 +1062,20 @@ def seq_lemmas(wrong=None):
             if meth == "append":
                 # what pyvc.models.seq_append states about s + [x] (same engine, same family of facts)
                 j = z3.Int("j!app")
-                facts = [(None, new[L(s)] == x),
+                facts = [(None, L(new) == L(s) + 1), (None, new[L(s)] == x),
                          (None, z3.ForAll([j], z3.Implies(z3.And(0 <= j, j < L(s)), new[j] == s[j])))] + facts
             if wrong is not None:
                 facts = wrong(meth, tag, facts, s, new, x, t)
             # the characterisation of ix on `new` is itself one of the facts (last): as a hypothesis it is an instance
             # of fi.* (proved for every sequence), so the facts about ix(new, .) may use it
             fi_new = first_index_facts(new, es) if opaque and meth in ("append", "rotate", "remove") else []
+            # two layers.  (A) facts about lengths and elements: proved about the defining term itself (sequence theory).
+            # (B) facts about first indices: proved for ANY sequence N that has the (A) facts and the characterisation
+            # fi.* - the defining term is replaced by a constant N in hypotheses and goal alike, which is the more
+            # general statement (its instance at N := the defining term is the fact), and keeps extract/++ out of
+            # the first-index arguments (the solvers are erratic on the mixture under load).
+            N = z3.Const(f"new!{meth}{tag}", S)
+            absn = lambda e: z3.substitute(e, (new, N))     # noqa: E731
             proved = []
             for k, (cond, f) in enumerate(facts):
                 h = list(hyps) + list(fi_new) + proved
@@ -1062,10 +1083,16 @@ def seq_lemmas(wrong=None):
                     continue      # instance of fi.* at the term `new`
                 if cond == "distinct":
                     h.append(distinct_z(s))
-                subs = []
-                for m, (extra, g, sks) in enumerate(_flatten(f, es, f"{meth}{tag}{k}")):
-                    hh = h + extra
-                    subs.append((hh + _ground_instances(hh, s, new, x, sks), g))
+                subs, done = [], []
+                for extra, g, sks in _flatten(f, es, f"{meth}{tag}{k}"):
+                    hh = h + done + extra
+                    if opaque and _mentions_ix(g, new):
+                        hh = [absn(e) for e in hh]
+                        subs.append((hh + _ground_instances(hh, s, N, x, sks), absn(g)))
+                    else:
+                        subs.append((hh + _ground_instances(hh, s, new, x, sks), g))
+                    if not sks:
+                        done.append(z3.Implies(z3.And(extra), g) if extra else g)     # conjuncts proved before: usable
                 out.append((f"op.{meth}[{tag}].{k}", subs, None, str(f).replace("\n", " ")[:160]))
                 if cond is None:
                     proved.append(f)
